@@ -202,7 +202,8 @@ func VerifC12cMap(n int) {
 	args.What = "/var/log/a.log,/var/log/b.log"
 	args.Serverless = true
 	args.Mode = omode.MapClient
-	args.Quiet = true
+	args.Quiet = verifrt.Bool("quiet")
+	args.Plain = verifrt.Bool("plain")
 	args.Timeout = []int{0, 5}[verifrt.Choose("timeout", 2)]
 	c := MaprClient{baseClient: baseClient{Args: args}}
 	q, err := mapr.NewQuery(queryStr)
@@ -245,5 +246,11 @@ func VerifC12cMap(n int) {
 	}
 	verifrt.Assert(files["/var/log/a.log"] && files["/var/log/b.log"], "files of the mapreduce request differ")
 	verifrt.Assert(sh.VerifQuery() == queryStr, "the query text differs between client and server")
+	// the options of the request are in force on the server although the session's first
+	// command (map) carries none
+	plain, quiet, serverless := sh.VerifFlags()
+	verifrt.Assert(quiet == args.Quiet, "the quiet option of a mapreduce request is not what the server applies")
+	verifrt.Assert(plain == args.Plain, "the plain option of a mapreduce request is not what the server applies")
+	verifrt.Assert(serverless == args.Serverless, "the serverless option of a mapreduce request is not what the server applies")
 	verifrt.Reach("map-compared")
 }
